@@ -129,7 +129,8 @@ package buffer
 //@   ensures [view] len(old(reader.Msg)) >= n ==> (result.1 == nil && arr(result.0) == arr(old(reader.Msg)) && off(result.0) == off(old(reader.Msg)) && len(result.0) == n)
 //@   ensures [advance] len(old(reader.Msg)) >= n ==> (arr(reader.Msg) == arr(old(reader.Msg)) && off(reader.Msg) == off(old(reader.Msg)) + n && len(reader.Msg) == len(old(reader.Msg)) - n && off(reader.Msg) + cap(reader.Msg) == off(old(reader.Msg)) + cap(old(reader.Msg)))
 //@   ensures [err-kind] result.1 != nil ==> (result.1 != io.EOF && !isExceeded(result.1) && ErrTextOK(result.1))
-//@   modifies reader.Msg
+//@   ghostset #shortReads = old(#shortReads) + 1 if result.1 != nil
+//@   modifies reader.Msg, #shortReads
 
 //@ func (*Reader).GetPrepareType
 //@   props C03 C04
@@ -146,7 +147,8 @@ package buffer
 //@   ensures [value] len(old(reader.Msg)) >= 2 ==> (result.1 == nil && result.0 == mbe16(arr(old(reader.Msg)), off(old(reader.Msg))))
 //@   ensures [advance] len(old(reader.Msg)) >= 2 ==> (arr(reader.Msg) == arr(old(reader.Msg)) && off(reader.Msg) == off(old(reader.Msg)) + 2 && len(reader.Msg) == len(old(reader.Msg)) - 2 && off(reader.Msg) + cap(reader.Msg) == off(old(reader.Msg)) + cap(old(reader.Msg)))
 //@   ensures [err-kind] result.1 != nil ==> (result.1 != io.EOF && !isExceeded(result.1) && ErrTextOK(result.1))
-//@   modifies reader.Msg
+//@   ghostset #shortReads = old(#shortReads) + 1 if result.1 != nil
+//@   modifies reader.Msg, #shortReads
 
 //@ func (*Reader).GetUint32
 //@   props C03 C04 C08
@@ -155,7 +157,8 @@ package buffer
 //@   ensures [value] len(old(reader.Msg)) >= 4 ==> (result.1 == nil && result.0 == mbe32(arr(old(reader.Msg)), off(old(reader.Msg))))
 //@   ensures [advance] len(old(reader.Msg)) >= 4 ==> (arr(reader.Msg) == arr(old(reader.Msg)) && off(reader.Msg) == off(old(reader.Msg)) + 4 && len(reader.Msg) == len(old(reader.Msg)) - 4 && off(reader.Msg) + cap(reader.Msg) == off(old(reader.Msg)) + cap(old(reader.Msg)))
 //@   ensures [err-kind] result.1 != nil ==> (result.1 != io.EOF && !isExceeded(result.1) && ErrTextOK(result.1))
-//@   modifies reader.Msg
+//@   ghostset #shortReads = old(#shortReads) + 1 if result.1 != nil
+//@   modifies reader.Msg, #shortReads
 
 // ---- Writer -------------------------------------------------------------
 // The frame under construction is described at byte level (length #blen and
